@@ -2,10 +2,59 @@ package trie
 
 import (
 	"fmt"
+	"math/bits"
+
+	proto "github.com/golang/protobuf/proto"
+	slim "github.com/openacid/slim/trie"
 
 	"slimverif/harness/gen"
 	"slimverif/harness/lp"
 )
+
+// nodeKinds records which node kinds the built trie contains (257-bit nodes,
+// table-compressed short nodes and the table size, max step), read from the
+// marshaled message: the distribution goes into the evidence.
+func nodeKinds(c *lp.Ctx) {
+	if S.St == nil {
+		return
+	}
+	buf, err := S.St.Marshal()
+	if err != nil || len(buf) < 32 {
+		return
+	}
+	m := &slim.Slim{}
+	if proto.Unmarshal(buf[32:], m) != nil {
+		return
+	}
+	if m.BigInnerCnt > 0 {
+		c.Hit("nodes:has-257bit")
+	}
+	if m.ShortBM != nil {
+		n := 0
+		for _, w := range m.ShortBM.Words {
+			n += bits.OnesCount64(w)
+		}
+		if n > 0 {
+			c.Hit("nodes:has-short")
+			c.Hit(fmt.Sprintf("nodes:short-size=%d", m.ShortSize))
+		}
+	}
+	if m.NodeTypeBM != nil {
+		inner := 0
+		for _, w := range m.NodeTypeBM.Words {
+			inner += bits.OnesCount64(w)
+		}
+		if inner > 64 {
+			c.Hit("nodes:>64-inner(multi-word-bitmaps)")
+		}
+	}
+	if m.Leaves != nil && m.Leaves.PositionBM != nil {
+		c.Hit("leaves:variable-width")
+	}
+	if m.Leaves != nil && m.Leaves.EltCnt < m.Leaves.N {
+		c.Hit("leaves:some-empty")
+	}
+}
 
 // build emits the trie.new line and checks the all-or-nothing outcome for a
 // valid (strictly ascending) input.
@@ -18,13 +67,14 @@ func build(c *lp.Ctx, cs *Case) bool {
 		return false
 	}
 	c.Sample(line)
+	nodeKinds(c)
 	return true
 }
 
 // genC01: Get / GetID on every retained key, fresh and reloaded.
 func genC01(c *lp.Ctx) {
 	n := c.Pick(400, 4000)
-	size := c.Pick(60, 300)
+	size := c.Pick(250, 1500)
 	for it := 0; it < n; it++ {
 		ks := gen.Any(c.Rng, size)
 		cs := NewCase(c.Rng, ks, "", "")
@@ -57,6 +107,41 @@ func genC01(c *lp.Ctx) {
 	}
 }
 
+func genC01big(c *lp.Ctx) {
+	bigShapes(c, func(cs *Case) {
+		for i, k := range cs.RKeys {
+			if i%7 != 0 {
+				continue
+			}
+			q := lp.XS(k)
+			want := cs.valAns(cs.RVals[i])
+			if got := c.Do("trie.get " + q); got != want {
+				c.Violate(lp.Violation{What: "Get on retained key (big shape)", Script: []string{cs.Line(), "trie.get " + q}, Expected: want, Got: got})
+			}
+		}
+	})
+}
+
 func init() {
 	lp.RegisterGen("C01", genC01)
+	lp.RegisterGen("C01", genC01big)
+}
+
+// bigShapes (thorough tier): a few very large regular tries that reach the
+// larger short-table sizes and multi-thousand-node bitmaps; every retained key
+// is looked up, Stat and String are compared with the model.
+func bigShapes(c *lp.Ctx, each func(cs *Case)) {
+	if c.Quick() {
+		return
+	}
+	for _, d := range []struct{ depth, distinct int }{{4, 3}, {5, 8}, {5, 30}, {6, 12}, {6, 60}, {7, 40}} {
+		ks := gen.ShortTable(c.Rng, d.depth, d.distinct)
+		cs := NewCase(c.Rng, ks, "", "")
+		c.Case(cs.Key(), true)
+		if !build(c, cs) {
+			continue
+		}
+		c.Hit(fmt.Sprintf("bigshape:depth=%d,distinct=%d,keys=%d", d.depth, d.distinct, len(ks.Keys)))
+		each(cs)
+	}
 }
